@@ -62,14 +62,15 @@ pub fn run_opt(t: &mut Toks) -> Option<String> {
     let mut e2 = e.clone();
     let r = optimize(&env, &mut e2);
     let trace = env.trace();
+    let pur = env.all_pure_calls();
     let post = execute(&env.inner, &e2);
     let chk1 = check_variables_and_functions(&env.inner, &e2).is_ok();
     let fold = any_foldable(&env.inner, &e2);
     let mut e3 = e2.clone();
     let idem = optimize(&env.inner, &mut e3).is_ok() && same_expr(&e2, &e3);
     let status = match &r { Ok(()) => "ok".to_string(), Err(err) => format!("err {}", show_err(err)) };
-    Some(format!("{} {} ; {} ; pre {} ; post {} ; chk {} {} ; fold {} ; idem {} ; nodes {} {} ; if3 {}", status, show_expr_out(&e2), trace,
-        show_res(&pre), show_res(&post), tf(chk0), tf(chk1), tf(fold), tf(idem), nodes(&e2), nodes(&e), tf(has_if3(&e))))
+    Some(format!("{} {} ; {} ; pre {} ; post {} ; chk {} {} ; fold {} ; idem {} ; nodes {} {} ; if3 {} ; pur {}", status, show_expr_out(&e2), trace,
+        show_res(&pre), show_res(&post), tf(chk0), tf(chk1), tf(fold), tf(idem), nodes(&e2), nodes(&e), tf(has_if3(&e)), tf(pur)))
 }
 fn tf(b: bool) -> &'static str { if b { "T" } else { "F" } }
 
@@ -81,13 +82,24 @@ pub fn run_chkvf(t: &mut Toks) -> Option<String> {
     let r = execute(&env, &e);
     Some(format!("{} ; {}", match c { Ok(()) => "ok".to_string(), Err(err) => format!("err {}", show_err(&err)) }, show_res(&r)))
 }
-/// `chkbool <env> <expr>` → `<ok|err ..> ; <execute result>`
+/// variables and calls standing in result position: the node itself, or the branches of a conditional
+fn result_pos<'a>(e: &'a E, out: &mut Vec<&'a E>) {
+    match e {
+        E::Variable { .. } | E::Call { .. } => out.push(e),
+        E::Ternary { middle, right, operator: O::TernaryCondition, .. } => { result_pos(middle, out); result_pos(right, out); }
+        _ => {}
+    }
+}
+/// `chkbool <env> <expr>` → `<ok|err ..> ; <execute result> ; rp <T|F>`
+/// rp = every result-position variable/call that evaluates successfully yields a Boolean (the property's proviso)
 pub fn run_chkbool(t: &mut Toks) -> Option<String> {
     let d = EnvDesc::parse(t)?; let e = t.expr()?;
     let env = d.build()?;
     let c = check_boolean_result(&e);
     let r = execute(&env, &e);
-    Some(format!("{} ; {}", match c { Ok(()) => "ok".to_string(), Err(err) => format!("err {}", show_err(&err)) }, show_res(&r)))
+    let mut rp = vec![]; result_pos(&e, &mut rp);
+    let proviso = rp.iter().all(|x| match execute(&env, x) { Ok(V::Boolean(_)) => true, Ok(_) => false, Err(_) => true });
+    Some(format!("{} ; {} ; rp {}", match c { Ok(()) => "ok".to_string(), Err(err) => format!("err {}", show_err(&err)) }, show_res(&r), tf(proviso)))
 }
 
 // ---------------------------------------------------------------- JSON
